@@ -15,6 +15,7 @@ import (
 	"fmt"
 	"io"
 	"math/rand"
+	"strings"
 
 	"github.com/utreexo/utreexo"
 )
@@ -247,8 +248,17 @@ func (w *World) roundTrip(n uint64, trackedOf func(in *Inst) []int) {
 				w.serialFaults(in, data, n, tracked)
 			}
 			policy := readerPolicies[int(w.seed+uint64(w.stepI)*7+uint64(i)*3)%len(readerPolicies)]
-			rd := &scriptedReader{data: data, policy: policy, rng: rand.New(rand.NewSource(int64(w.seed) + int64(i)))}
+			// the stream is followed by other data (another record of the caller's file):
+			// restoring must take exactly its own bytes out of the reader
+			trailer := bytes.Repeat([]byte{0xa5, 0x5a, 0x17}, 40)
+			if strings.Contains(policy, "dataeof") {
+				trailer = nil // data-with-EOF marks the end of the reader's data
+			}
+			rd := &scriptedReader{data: append(append([]byte{}, data...), trailer...), policy: policy, rng: rand.New(rand.NewSource(int64(w.seed) + int64(i)))}
 			out, rn, err := in.restoreFrom(rd)
+			if err == nil && rd.pos != L {
+				w.fail([]string{"C13"}, in, "bytecount.consumed", fmt.Sprintf("restoring a stream of %d bytes that is followed by other data took %d bytes out of the reader (reported: %d; reader policy %s)", L, rd.pos, rn, policy), L, rd.pos)
+			}
 			if err != nil {
 				w.fail([]string{"C13"}, in, "error", fmt.Sprintf("restoring the complete stream (reader policy %s) failed: %v", policy, err), nil, nil)
 				return
@@ -316,6 +326,22 @@ func (w *World) serialFaults(in *Inst, data []byte, n uint64, tracked []int) {
 			if ev.Res != "err" || t%17 == pi || t >= L-2 {
 				w.logSerial(ev)
 			}
+		}
+	}
+	// the complete stream followed by other data: exactly L bytes may be taken
+	for _, policy := range []string{"whole", "byte", "half", "random"} {
+		trailer := bytes.Repeat([]byte{0xa5, 0x5a, 0x17}, 1400)
+		rd := &scriptedReader{data: append(append([]byte{}, data...), trailer...), policy: policy, rng: rand.New(rand.NewSource(int64(w.seed)))}
+		var rn int
+		var err error
+		pan := protect(func() { _, rn, err = in.restoreFrom(rd) })
+		w.nserial++
+		if pan != "" {
+			w.fail(props, in, "panic", "restore of a stream followed by other data panicked: "+pan, nil, nil)
+		} else if err != nil {
+			w.fail(props, in, "complete.rejected", fmt.Sprintf("the complete stream (%d bytes) followed by other data is rejected under reader policy %s: %v", L, policy, err), nil, nil)
+		} else if rd.pos != L || rn != L {
+			w.fail(props, in, "bytecount.consumed", fmt.Sprintf("restoring a stream of %d bytes that is followed by other data took %d bytes out of the reader and reported %d (reader policy %s)", L, rd.pos, rn, policy), L, rd.pos)
 		}
 	}
 	// every failure offset of the sink
